@@ -413,14 +413,14 @@ Proof.
     apply pws_ok_upd; auto.
     destruct Hpw as [H1 [H2 [H3 H4]]]. unfold pw_ok, curr_ok; simpl.
     split; [intros x E; destruct (H1 x E) as [_ [_ [_ [O _]]]]; congruence|].
-    split; [exact H2|]. split; [exact H3|]. intros _. rewrite Q. auto.
+    split; [intros x []|]. split; [discriminate|]. auto.
   - (* Attempt *)
     destruct (nth_error (s_pws s) p) as [pw|] eqn:N; [|discriminate].
     assert (Hpw : pw_ok pw) by (apply Hp; eapply nth_error_In; eauto).
     destruct (pw_snd pw) as [[b n ph]|] eqn:Sn; [|discriminate].
     destruct ph; try discriminate.
     inversion H; subst; clear H.
-    destruct Hpw as [H1 [H2 [H3 H4]]]. specialize (H3 _ eq_refl). simpl in H3.
+    destruct Hpw as [H1 [H2 [H3 H4]]]. specialize (H3 _ Sn). simpl in H3.
     split; [|split; [exact Hc|]]; simpl.
     + apply pws_ok_upd; auto. unfold pw_ok, curr_ok; simpl.
       split; [exact H1|]. split; [exact H2|]. split; [|exact H4].
@@ -434,7 +434,7 @@ Proof.
     destruct (pw_snd pw) as [[b n ph]|] eqn:Sn; [|discriminate].
     destruct ph; try discriminate.
     inversion H; subst; clear H.
-    destruct Hpw as [H1 [H2 [H3 H4]]]. specialize (H3 _ eq_refl). simpl in H3.
+    destruct Hpw as [H1 [H2 [H3 H4]]]. specialize (H3 _ Sn). simpl in H3.
     split; [|split; [exact Hc|exact Hj]]; simpl.
     apply pws_ok_upd; auto. unfold pw_ok, curr_ok; simpl.
     split; [exact H1|]. split; [exact H2|]. split; [|exact H4].
@@ -481,3 +481,51 @@ Lemma runs_inv_C08 : forall cfg ls s, runs cfg ls s -> inv cfg s.
 Proof.
   intros cfg ls s H. eapply runs_inv; [apply inv_init|apply inv_step|exact H].
 Qed.
+
+(* ------------------------------------------------------------------ the statements *)
+Lemma C08_limits_proof : stmt_C08_limits.
+Proof.
+  unfold stmt_C08_limits. intros cfg ls s [Hbs _] Hr a Hi.
+  destruct (runs_inv_C08 cfg ls s Hr) as [_ [_ Hj]].
+  destruct (Hj a Hi) as [A1 [A2 [A3 A4]]].
+  split; [lia|]. split; [exact A2|]. split; [exact A3|exact A4].
+Qed.
+
+Lemma C08_open_batch_never_full_proof : stmt_C08_open_batch_never_full.
+Proof.
+  unfold stmt_C08_open_batch_never_full. intros cfg ls s Hr p pw b N Hcur.
+  destruct (runs_inv_C08 cfg ls s Hr) as [Hp _].
+  destruct (Hp pw (nth_error_In _ _ N)) as [H1 _].
+  destruct (H1 b Hcur) as [[B1 [B2 _]] [C1 [C2 _]]].
+  auto.
+Qed.
+
+Lemma C08_open_batch_has_timer_proof : stmt_C08_open_batch_has_timer.
+Proof.
+  unfold stmt_C08_open_batch_has_timer. intros cfg ls s Hr p pw b N Hcur.
+  destruct (runs_inv_C08 cfg ls s Hr) as [Hp _].
+  destruct (Hp pw (nth_error_In _ _ N)) as [H1 _].
+  destruct (H1 b Hcur) as [_ [_ [_ [Hop Hin]]]].
+  assert (Hex : existsb (Nat.eqb (b_k b)) (pw_await pw) = true).
+  { apply existsb_exists. exists (b_k b). split; [exact Hin|apply Nat.eqb_refl]. }
+  assert (Hlt : p < length (s_pws s)) by (apply nth_error_Some; congruence).
+  cbn [step]. rewrite N, Hex, Hcur, Nat.eqb_refl.
+  eexists. eexists. split; [reflexivity|].
+  unfold with_pw_done; cbn [s_pws].
+  split; [apply nth_error_upd_eq; exact Hlt|].
+  unfold put. rewrite Hop. simpl. auto.
+Qed.
+
+Lemma C08_queued_batch_served_proof : stmt_C08_queued_batch_served.
+Proof.
+  unfold stmt_C08_queued_batch_served. intros cfg ls s Hr p pw N Hq.
+  destruct (runs_inv_C08 cfg ls s Hr) as [Hp _].
+  destruct (Hp pw (nth_error_In _ _ N)) as [_ [_ [_ H4]]].
+  assert (Hal : pw_alive pw = true).
+  { destruct (pw_alive pw); [reflexivity|]. destruct (H4 eq_refl) as [E _]. congruence. }
+  split; [exact Hal|].
+  destruct (pw_snd pw) as [[b n ph]|] eqn:Sn.
+  - destruct ph; cbn [sd_ph step]; [intros r| |]; rewrite N, Sn; discriminate.
+  - cbn [step]. rewrite N, Hal, Sn. destruct (pw_queue pw); [congruence|discriminate].
+Qed.
+
